@@ -19,6 +19,7 @@ The overlap condition, `find_prog_section_for_offset`'s match and the address co
 generated expressions (Gen/SitesValidate.lean, Gen/Funcs.lean).
 -/
 import ElfioVerif.Lemmas.ValidateL
+import ElfioVerif.Props.C04
 namespace ElfioVerif.C20
 open ElfioVerif Gen
 
@@ -148,25 +149,6 @@ example :
 
 /-! ### silence on well laid out objects -/
 
-/-- What the layout passes of a successful `save` establish (C04: `layout_disjoint`,
-    `member_equidistant`), in the form `validate` consumes it.  `validate` looks at *every* section
-    whose type is not SHT_NOBITS — including SHT_NULL-typed ones — with size > 0 and offset > 0. -/
-structure LayoutOk (o : Obj) : Prop where
-  /-- no 64-bit wrap-around in the file range of a section validate looks at -/
-  nowrap : ∀ s ∈ o.secs, s.stype ≠ BitVec.ofNat 32 SHT_NOBITS → 0 < s.size.toNat →
-    s.offset.toNat + s.size.toNat < 18446744073709551616
-  /-- file ranges of non-empty non-NOBITS sections with an offset are pairwise disjoint -/
-  disjoint : ∀ (i j : Nat) (a b : SecBuf), i < j → o.secs[i]? = some a → o.secs[j]? = some b →
-    a.stype ≠ BitVec.ofNat 32 SHT_NOBITS → b.stype ≠ BitVec.ofNat 32 SHT_NOBITS →
-    0 < a.size.toNat → 0 < b.size.toNat → 0 < a.offset.toNat → 0 < b.offset.toNat →
-    ¬ RangesIntersect a b
-  /-- a PROGBITS section containing the first file byte of a loadable segment is at the same
-      distance from the segment start in file and memory -/
-  equidistant : ∀ g ∈ o.segs, g.stype = BitVec.ofNat 32 PT_LOAD → 0 < g.filesz.toNat →
-    ∀ s ∈ o.secs, s.stype = BitVec.ofNat 32 SHT_PROGBITS →
-      s.offset.toNat ≤ g.offset.toNat → g.offset.toNat < s.offset.toNat + s.size.toNat →
-      s.addr + (g.offset - s.offset) = g.vaddr
-
 theorem validate_silent (o : Obj) (h : LayoutOk o) : validate o = [] := by
   unfold validate
   rw [List.append_eq_nil_iff]
@@ -239,5 +221,35 @@ example :
     let o : Obj := { secs := [SecBuf.fresh .c64 0, s1, s2], segs := [g] }
     validate o = [] := by
   decide
+
+/-! ### silence after `save` -/
+
+/-- **`validate()` returns no complaint for the object left by a successful `save`** of a flat
+    writer-domain object (C04's `save_layoutOk` supplies `LayoutOk`): any number of sections and
+    segments; fewer than 2^16 sections; sections that occupy file space do not carry index 0 and
+    SHT_NULL-typed sections are empty; no cursor wrap-around (`layoutNW`); distinct segment
+    indices; writer-domain side conditions at every segment (`layoutDomB false false`: members
+    count towards the memory size, member lists disjoint, no PHDR/offset-0 segment with members). -/
+theorem validate_silent_save (o : Obj) (os : OStream) (r : SaveRes) (hdr : Bytes)
+    (hs : save o os = .ok r) (hok : r.ok = true) (hh : o.hdr = some hdr)
+    (hn : o.secs.length < 65536)
+    (h0 : ∀ (i : Nat) (s : SecBuf), o.secs[i]? = some s → s.Occ → s.index ≠ 0)
+    (hnull0 : ∀ s ∈ o.secs, s.stype = BitVec.ofNat 32 SHT_NULL → s.size = 0)
+    (hnw : layoutNW o hdr = true) (hnd : (o.segs.map (·.index)).Nodup)
+    (hdom : layoutDomB false false o hdr = true) : validate r.obj = [] :=
+  validate_silent r.obj (C04.save_layoutOk o os r hdr hs hok hh hn h0 hnull0 hnw hnd hdom)
+
+/-- non-vacuity: `C04.exObj` (two members of a PT_LOAD, one with an explicit address, and two
+    loose sections) meets every hypothesis, and its `save` succeeds -/
+example : ∀ r, save C04.exObj {} = .ok r → r.ok = true → validate r.obj = [] := by
+  intro r hs hok
+  refine validate_silent_save C04.exObj {} r C04.exHdr hs hok rfl (by decide) ?_ (by decide) (by decide)
+    (by decide) (by decide)
+  intro i s hs ho hi
+  have : ∀ t ∈ C04.exObj.secs, t.index = 0 → ¬ t.Occ := by decide
+  exact this s (List.mem_of_getElem? hs) hi ho
+
+set_option maxRecDepth 100000 in
+example : (match save C04.exObj {} with | .ok r => r.ok | _ => false) = true := by decide
 
 end ElfioVerif.C20
